@@ -40,16 +40,19 @@ def _one(args):
     for p in props:
       try:
         check, _ = run_property(p, 'quick', scratch)
-        viol = [o for o in check.obs if o.status == 'violation' and not o.advisory and not any(report.finding_matches(e, p, o) for e in known)]
-        inc = [o for o in check.obs if o.status == 'inconclusive']
-        if viol:
+        verdict = report.classify(check)
+        inc = [o.brief() for o in check.obs if o.status == 'inconclusive']
+        if verdict == 'violation':
+          viol = [o for o in check.obs if o.status == 'violation' and not o.advisory and not any(report.finding_matches(e, p, o) for e in known)]
           out.append((rid, p, 'false-alarm', viol[0].brief()[:200]))
-        elif inc or check.errors:
-          out.append((rid, p, 'withheld', (check.errors + [o.brief() for o in inc])[0][:200]))
+        elif verdict == 'failed':
+          out.append((rid, p, 'exit2', (check.errors + inc)[0][:200]))
+        elif verdict == 'not-decided':
+          out.append((rid, p, 'withheld', (inc + check.errors)[0][:200]))
         else:
           out.append((rid, p, 'silent', ''))
       except Exception as e:  # pylint: disable=broad-except
-        out.append((rid, p, 'withheld', f'{type(e).__name__}: {e}'[:200]))
+        out.append((rid, p, 'exit2', f'{type(e).__name__}: {e}'[:200]))
     return out
   finally:
     shutil.rmtree(scratch, ignore_errors=True)
@@ -76,12 +79,17 @@ def main():
     if st == 'false-alarm':
       print(f'FALSE-ALARM {rid} {p}: {detail}')
   fa = sum(1 for v in by.values() if 'false-alarm' in v)
-  wh = sum(1 for v in by.values() if 'withheld' in v and 'false-alarm' not in v)
+  e2 = sum(1 for v in by.values() if 'exit2' in v and 'false-alarm' not in v)
+  wh = sum(1 for v in by.values() if 'withheld' in v and 'false-alarm' not in v and 'exit2' not in v)
   sk = sum(1 for v in by.values() if 'skipped' in v)
+  for rid, p, st, detail in res:
+    if st == 'exit2':
+      print(f'EXIT2 {rid} {p}: {detail}')
   for rid in sorted(by):
     v = by[rid]
-    print(f'{rid}: false-alarm={v.get("false-alarm", [])} withheld={v.get("withheld", [])}' + (' SKIPPED' if 'skipped' in v else ''))
-  print(f'refactors {len(by)}: with a false alarm {fa}, verdict withheld only {wh}, skipped {sk}, silent {len(by) - fa - wh - sk}')
+    print(f'{rid}: false-alarm={v.get("false-alarm", [])} exit2={v.get("exit2", [])} not-decided={v.get("withheld", [])}' + (' SKIPPED' if 'skipped' in v else ''))
+  print(f'refactors {len(by)}: with a false alarm {fa}, analysis failed (exit 2) {e2}, NOT-DECIDED lines only (exit 0) {wh}, skipped {sk}, '
+        f'silent {len(by) - fa - e2 - wh - sk}')
   sys.exit(1 if fa else 0)
 
 
